@@ -858,6 +858,13 @@ fn operand_json<'tcx>(d: &mut Dumper<'tcx>, n: &Node<'tcx>, env: TypingEnv<'tcx>
                         }
                         _ => {}
                     }
+                    // struct / enum / tuple valued constants (`const NOOP: Outcome = Outcome { n: 0, last: None }`):
+                    // the field values, so that the analysis can read them like an aggregate built in place
+                    if matches!(cty.kind(), ty::Adt(..) | ty::Tuple(..)) {
+                        if let Some(dj) = destructure_json(tcx, v, cty, 0) {
+                            fields.push(("destructured", dj));
+                        }
+                    }
                 }
                 fields.push(("text", J::s(&format!("{}", c.const_))));
             }
@@ -865,6 +872,48 @@ fn operand_json<'tcx>(d: &mut Dumper<'tcx>, n: &Node<'tcx>, env: TypingEnv<'tcx>
         }
         _ => J::obj(vec![("k", J::s("other")), ("text", J::s(&format!("{:?}", op)))]),
     }
+}
+
+fn destructure_json<'tcx>(tcx: TyCtxt<'tcx>, v: ConstValue, t: Ty<'tcx>, depth: usize) -> Option<J> {
+    if depth > 3 { return None; }
+    match t.kind() {
+        ty::Adt(adef, _) if !adef.is_union() && !adef.is_box() => {}
+        ty::Tuple(_) => {}
+        _ => return None,
+    }
+    let dc = tcx.try_destructure_mir_constant_for_user_output(v, t)?;
+    let mut out: Vec<(&str, J)> = vec![("ty", J::s(&format!("{}", t)))];
+    let mut names: Vec<J> = Vec::new();
+    if let ty::Adt(adef, _) = t.kind() {
+        out.push(("adt", J::s(&tcx.def_path_str(adef.did()))));
+        out.push(("is_enum", J::b(adef.is_enum())));
+        let vidx = dc.variant.unwrap_or(rustc_abi::FIRST_VARIANT);
+        let vd = adef.variant(vidx);
+        out.push(("variant", J::s(&vd.name.to_string())));
+        out.push(("variant_idx", J::n(vidx.as_usize() as i128)));
+        for f in vd.fields.iter() { names.push(J::s(&f.name.to_string())); }
+    } else {
+        for i in 0..dc.fields.len() { names.push(J::s(&format!("{}", i))); }
+    }
+    out.push(("names", J::arr(names)));
+    let mut fs: Vec<J> = Vec::new();
+    for (fv, fty) in dc.fields.iter() {
+        let mut fj: Vec<(&str, J)> = vec![("k", J::s("const")), ("ty", J::s(&format!("{}", fty)))];
+        match fv {
+            ConstValue::Scalar(mir::interpret::Scalar::Int(si)) => {
+                fj.push(("bits", J::s(&format!("{}", si.to_bits_unchecked()))));
+                fj.push(("size", J::n(si.size().bytes() as i128)));
+            }
+            ConstValue::ZeroSized => { fj.push(("zst", J::b(true))); }
+            _ => {}
+        }
+        if let Some(sub) = destructure_json(tcx, *fv, *fty, depth + 1) {
+            fj.push(("destructured", sub));
+        }
+        fs.push(J::obj(fj));
+    }
+    out.push(("fields", J::arr(fs)));
+    Some(J::obj(out))
 }
 
 fn rvalue_json<'tcx>(d: &mut Dumper<'tcx>, n: &Node<'tcx>, env: TypingEnv<'tcx>, body: &Body<'tcx>, rv: &Rvalue<'tcx>) -> J {
